@@ -178,6 +178,9 @@ def type_of(e):
     if tag == "reduce":
         _, op, a, names = e
         ins, out = type_of(a)
+        for k, n in names:
+            if k in ins and (ins[k][0] != "bint" or ins[k][1] != n):
+                raise IllTyped("reduce: %s declared with size %s but the argument has %s" % (k, n, ins[k]))
         ins = OrderedDict((k, d) for k, d in ins.items() if k not in dict(names))
         return ins, out
     if tag == "subs":
@@ -235,6 +238,8 @@ def type_of(e):
     if tag == "lambda":
         _, name, size, a = e
         ia, (da, sa) = type_of(a)
+        if name in ia and (ia[name][0] != "bint" or ia[name][1] != size):
+            raise IllTyped("lambda: %s declared with size %s but the body has %s" % (name, size, ia[name]))
         ins = OrderedDict((k, d) for k, d in ia.items() if k != name)
         return ins, (da, (size,) + tuple(sa))
     if tag == "stack":
